@@ -251,6 +251,72 @@ Definition double_claim_possible (owner thief : claim) : bool :=
 Definition pipe_claims_ok (owner thief : claim) (w : wguard) : bool :=
   negb (double_claim_possible owner thief) && match w with WGNotCanWrite => true | WGOther => false end.
 
+
+(* ------------------------------------------------ scheduler teardown (WaitforAll, the drain step of ~TaskScheduler)
+   ~TaskScheduler -> WaitforAllAndShutdown -> WaitforAll; StopThreads(true); free the pipes.  WaitforAll:
+       bHaveTasks = true;
+       while (bHaveTasks <op> m_NumThreadsWaiting < threadsRunning) { bHaveTasks = TryRunTask(); if (!bHaveTasks) bHaveTasks = some pipe non-empty; }
+   A task is its id and the follow-ups it schedules WHILE it runs (any depth).  [drain] is the loop as executed by the
+   tearing-down thread when every worker is already waiting (always the case with ONE tasking thread: no workers):
+   the second operand of the loop condition is then false. *)
+Inductive task := Task (id : N) (followups : list task).
+Fixpoint tsize (t : task) : nat :=
+  match t with Task _ fs => S ((fix sz (l : list task) : nat := match l with [] => O | x :: r => (tsize x + sz r)%nat end) fs) end.
+Fixpoint tids (t : task) : list N :=
+  match t with Task id fs => id :: (fix ids (l : list task) : list N := match l with [] => [] | x :: r => tids x ++ ids r end) fs end.
+Definition fsize (l : list task) : nat := fold_right (fun t a => (tsize t + a)%nat) O l.
+Definition fids (l : list task) : list N := flat_map tids l.
+
+Inductive lcond := LOr | LAnd | LOther.
+Definition eval_lcond (c : lcond) (a b : bool) : option bool :=
+  match c with LOr => Some (a || b) | LAnd => Some (a && b) | LOther => None end.
+(* returns what is left in the pipes and the ids run, in order; None = out of fuel / unknown condition *)
+Fixpoint drain (c : lcond) (fuel : nat) (have : bool) (queue : list task) (done : list N) : option (list task * list N) :=
+  match fuel with
+  | O => None
+  | S f =>
+    match eval_lcond c have false with
+    | None => None
+    | Some false => Some (queue, done)
+    | Some true =>
+        match queue with
+        | [] => drain c f false [] done                              (* TryRunTask finds nothing, all pipes empty *)
+        | Task id fs :: r => drain c f true (fs ++ r) (id :: done)   (* runs one task; its follow-ups are queued *)
+        end
+    end
+  end.
+Definition teardown (c : lcond) (queue : list task) : option (list task * list N) :=
+  drain c (fsize queue + 2) true queue [].
+
+(* with workers: tasks still being executed by workers complete after some loop iterations (their delay) and then queue
+   their follow-ups; "m_NumThreadsWaiting < threadsRunning" holds exactly while some worker is still busy *)
+Fixpoint drain_mt (c : lcond) (fuel : nat) (have : bool) (inflight : list (nat * task)) (queue : list task) (done : list N)
+  : option (list task * list (nat * task) * list N) :=
+  match fuel with
+  | O => None
+  | S f =>
+    match eval_lcond c have (match inflight with [] => false | _ => true end) with
+    | None => None
+    | Some false => Some (queue, inflight, done)
+    | Some true =>
+        (* workers advance: those whose delay is 0 finish: id done, follow-ups queued *)
+        let fin := filter (fun p => Nat.eqb (fst p) 0) inflight in
+        let rest := map (fun p => (pred (fst p), snd p)) (filter (fun p => negb (Nat.eqb (fst p) 0)) inflight) in
+        let q1 := flat_map (fun p => match snd p with Task _ fs => fs end) fin ++ queue in
+        let d1 := map (fun p => match snd p with Task id _ => id end) fin ++ done in
+        match q1 with
+        | [] => drain_mt c f false rest [] d1
+        | Task id fs :: r => drain_mt c f true rest (fs ++ r) (id :: d1)
+        end
+    end
+  end.
+(* shutdown order *)
+Inductive sdstep := SdDrain (* WaitforAll() *) | SdStopThreads (* StopThreads(true) *) | SdFreePipes | SdOther.
+Definition sdstep_eqb (a b : sdstep) := match a, b with SdDrain, SdDrain | SdStopThreads, SdStopThreads | SdFreePipes, SdFreePipes => true | _, _ => false end.
+Fixpoint sdlist_eqb (a b : list sdstep) : bool :=
+  match a, b with [], [] => true | x :: r, y :: s => sdstep_eqb x y && sdlist_eqb r s | _, _ => false end.
+Definition shutdown_ref := [SdDrain; SdStopThreads; SdFreePipes; SdFreePipes].
+
 (* ================================= C. memory events on the heap LocalTask (by task id) *)
 Inductive mev := MAlloc      (* new LocalTask *)
                | MWriteRC    (* m_RunningCount = 0          AddTaskSetToPipe *)
